@@ -32,6 +32,7 @@ let dispatch (name : string) (args : M.n list) : M.n list list =
   | "C03" -> M.run_c03 false args
   | "C03S" -> M.run_c03 true args
   | "ASM" -> M.run_asm args
+  | "C14" -> M.run_c14 args
   | _ -> failwith ("unknown case kind " ^ name)
 
 let () =
